@@ -213,7 +213,23 @@ def _apply_mode(ds, mode):
         ds = ds.filter_by.strip_generation_meta()
     elif mode == "filtered":
         ds = ds.filter_by.path_length(min_length=1)
+    elif mode == "filtered_twice":
+        # the same filter with the same arguments recorded twice in a row (each record is part of the configuration)
+        ds = ds.filter_by.path_length(min_length=1).filter_by.path_length(min_length=1)
+    elif mode == "collected_twice":
+        ds = ds.filter_by.collect_generation_meta().filter_by.collect_generation_meta()
     return ds
+
+
+def _stale(ds, delta):
+    """the same mazes under a configuration whose n_mazes (declared compare=False by the library: it may lag behind) says
+    len + delta - what MazeDataset(cfg_written_for_another_size, mazes) gives"""
+    import copy
+
+    md, MazeDataset, *_ = _lib()
+    cfg = copy.deepcopy(ds.cfg)
+    cfg.n_mazes = max(0, len(ds.mazes) + delta)
+    return MazeDataset(cfg, ds.mazes, generation_metadata_collected=ds.generation_metadata_collected)
 
 
 def _hand_cfg(name, g, n, variant):
@@ -273,7 +289,10 @@ def build(recipe):
         ds = MazeDataset(_hand_cfg("exh", g, len(mazes), recipe.get("cfgv", 0)), mazes)
     else:
         raise ValueError(kind)
-    return _apply_mode(ds, recipe["mode"])
+    ds = _apply_mode(ds, recipe["mode"])
+    if recipe.get("stale"):
+        ds = _stale(ds, recipe["stale"])
+    return ds
 
 
 # ------------------------------------------------------------------ one observed round trip
@@ -297,6 +316,7 @@ def observe_member(ds):
         pre_coll=proj_coll(ds.generation_metadata_collected),
         permeta=[proj_meta(m.generation_meta) for m in ds.mazes],
         has_meta=bool(len(ds.mazes) > 0 and ds.mazes[0].generation_meta is not None),
+        stale=bool(int(ds.cfg.n_mazes) != len(ds.mazes)),
     )
 
 
@@ -511,12 +531,16 @@ def random_jobs(seed, count, disk_every):
                 ep = "free"  # forced endpoints may lie outside the connected component
             if g == 2 and ep == "deadend":
                 ep = "free"
-            mode = str(rng.choice(["permaze", "collected", "filtered", "none", "stripped"], p=[0.34, 0.34, 0.16, 0.08, 0.08]))
+            mode = str(rng.choice(["permaze", "collected", "filtered", "none", "stripped", "filtered_twice", "collected_twice"], p=[0.28, 0.28, 0.12, 0.08, 0.08, 0.1, 0.06]))
             rc = dict(kind="gen", gen=gi, g=g, n=n, ep=ep, seed=int(rng.choice([42, 42, 7, 123456])), mode=mode,
                       name=str(rng.choice(["c05", "a b-c_d.1", "Ünï"])), smin=int(rng.choice([1, 3])), smax=int(rng.choice([512, 64])), rewrap=bool(k % 2))
+            if k % 4 == 1:
+                rc["stale"] = int(rng.choice([-1, 1, 2, 5]))
         else:
             lens = [int(x) for x in rng.choice([1, 1, 2, 2, 3, 5, 9, 20], size=n)]
             rc = dict(kind="hand", g=g, lens=lens, conn=str(rng.choice(["dfs", "perc"])), rs=[seed, 6, k], mode=str(rng.choice(["permaze", "collected", "none"], p=[0.45, 0.4, 0.15])), cfgv=int(rng.integers(0, 4)))
+            if k % 2 == 1:
+                rc["stale"] = int(rng.choice([-1, 1, 2, 5]))
         jobs.append(dict(recipe=rc, trips=all_trips(n, vias)))
     return jobs
 
